@@ -4,11 +4,11 @@
 global size_of usize == 8;
 
 pub trait Types: Sized {
-    type LogId: Clone + Ord + Eq;
-    type LogPayload: Clone;
-    type Vote: Clone + PartialOrd + Eq;
+    type LogId: Clone + Ord + Eq /*+CODEC: + codeq::Encode + codeq::Decode */;
+    type LogPayload: Clone /*+CODEC: + codeq::Encode + codeq::Decode */;
+    type Vote: Clone + PartialOrd + Eq /*+CODEC: + codeq::Encode + codeq::Decode */;
     type Callback: Callback;
-    type UserData: Clone + Eq;
+    type UserData: Clone + Eq /*+CODEC: + codeq::Encode + codeq::Decode */;
 
     spec fn spec_log_index(log_id: &Self::LogId) -> u64;
     spec fn spec_payload_size(payload: &Self::LogPayload) -> u64;
@@ -18,6 +18,13 @@ pub trait Types: Sized {
 
     fn payload_size(payload: &Self::LogPayload) -> (r: u64)
         ensures r == Self::spec_payload_size(payload);
+/*+CODEC:
+    /// ASSUMED magnitudes of the user's encodings (< 2^56 bytes each)
+    proof fn law_logid_small(v: Self::LogId) ensures v.enc().len() < 0x100_0000_0000_0000;
+    proof fn law_vote_small(v: Self::Vote) ensures v.enc().len() < 0x100_0000_0000_0000;
+    proof fn law_payload_small(v: Self::LogPayload) ensures v.enc().len() < 0x100_0000_0000_0000;
+    proof fn law_userdata_small(v: Self::UserData) ensures v.enc().len() < 0x100_0000_0000_0000;
+*/
 
 //@fn src/api/types.rs Types::next_log_index
 props: C01 C16
